@@ -580,3 +580,37 @@ package mqtt
 // An error return that leaves the connection in place is a Persistence failure (or a BigMessage).
 //@ ensures[C06,C10,id=offline_on_error] err != nil && !hastype(err, *BigMessage) && c.readConn != nil && !closed(c.writeSem) ==> perr(err)
 //@ ensures[C06] c.bigMessage != nil && !closed(c.writeSem) ==> hastype(err, *BigMessage) && c.bigMessage == unbox(err, *BigMessage) && c.peek == nil
+
+// applySeqNoAndEnqueue: ErrMax exactly when the queue is full; otherwise the identifier is stamped,
+// the record saved, and only then the exchange enqueued.
+//@ func mqtt.(*Client).applySeqNoAndEnqueue -> done, err
+//@ reveal flatlen_
+//@ modifies packet[0][len(packet[0])-2], packet[0][len(packet[0])-1], chanstate(out.queue), st_has(c.persistence, packet[0][len(packet[0])-2]*256 + packet[0][len(packet[0])-1] + seqNo % 16384), st_len(c.persistence, packet[0][len(packet[0])-2]*256 + packet[0][len(packet[0])-1] + seqNo % 16384), st_val(c.persistence, packet[0][len(packet[0])-2]*256 + packet[0][len(packet[0])-1] + seqNo % 16384)
+//@ requires c.persistence != nil && out.queue != nil && !closed(out.queue) && len(packet) >= 1 && len(packet[0]) >= 2
+//@ requires packet[0][len(packet[0])-2]*256 + packet[0][len(packet[0])-1] == 32768 || packet[0][len(packet[0])-2]*256 + packet[0][len(packet[0])-1] == 49152
+//@ at[C01,C17] send queue#1: assert st_has(c.persistence, old(packet[0][len(packet[0])-2]*256 + packet[0][len(packet[0])-1]) + seqNo % 16384)
+//@ ensures[C17,C14] (err != nil && Is(err, ErrMax)) == (old(len(out.queue)) == cap(out.queue))
+//@ ensures[C17,C14,C01] err != nil ==> done == nil && len(out.queue) == old(len(out.queue))
+//@ ensures[C17,C14] err != nil && Is(err, ErrMax) ==> forall(k, st_has(c.persistence, k) == old(st_has(c.persistence, k))) && forall(j, 0, len(packet[0]), packet[0][j] == old(packet[0][j]))
+//@ ensures[C01,C17] err == nil ==> len(out.queue) == old(len(out.queue)) + 1 && done != nil && fresh(done) && cap(done) == 2 && len(done) == 0 && !closed(done)
+//@ ensures[C09,C17] err == nil ==> packet[0][len(packet[0])-2]*256 + packet[0][len(packet[0])-1] == old(packet[0][len(packet[0])-2]*256 + packet[0][len(packet[0])-1]) + seqNo % 16384
+//@ ensures[C09] forall(j, 0, len(packet[0]) - 2, packet[0][j] == old(packet[0][j]))
+//@ ensures[C01,C17] err == nil ==> st_has(c.persistence, packet[0][len(packet[0])-2]*256 + packet[0][len(packet[0])-1])
+//@ ensures[C17] forall(k, k != old(packet[0][len(packet[0])-2]*256 + packet[0][len(packet[0])-1]) + seqNo % 16384 ==> st_has(c.persistence, k) == old(st_has(c.persistence, k)))
+
+// submitPersisted: the sequence token is held from before the Save until after the write attempt;
+// with a backlog nothing is written, so a later submission cannot overtake an unsent one.
+//@ chaninv mqtt.outbound.seqSem(v): true
+//@ func mqtt.(*Client).submitPersisted -> exchange, err
+//@ stable queue
+//@ requires c.persistence != nil && out.queue != nil && !closed(out.queue) && out.seqSem != nil && cap(out.seqSem) == 1 && (closed(out.seqSem) ==> len(out.seqSem) == 0)
+//@ requires c.writeSem != nil && cap(c.writeSem) == 1 && (closed(c.writeSem) ==> len(c.writeSem) == 0)
+//@ requires len(packet) >= 1 && len(packet[0]) >= 2 && (packet[0][len(packet[0])-2]*256 + packet[0][len(packet[0])-1] == 32768 || packet[0][len(packet[0])-2]*256 + packet[0][len(packet[0])-1] == 49152)
+//@ at[C05,C01] call applySeqNoAndEnqueue#1: assert len(out.seqSem) == 0
+//@ at[C05] call writeBuffersNoWait#1: assert len(out.seqSem) == 0 && seq.submitN >= seq.acceptN - 1
+//@ ensures[C12,C14] old(closed(out.seqSem)) ==> err == ErrClosed && exchange == nil
+//@ ensures[C14,C17] err != nil ==> exchange == nil && len(out.queue) == old(len(out.queue)) && forall(k, wire_len(k) == old(wire_len(k)))
+//@ ensures[C05,C01] !closed(out.seqSem) ==> len(out.seqSem) == 1
+//@ ensures[C01,C05] err == nil && old(len(out.seqSem)) == 1 ==> qat(out.seqSem, 0).acceptN == (old(qat(out.seqSem, 0).acceptN) + 1) % 18446744073709551616 && len(out.queue) == old(len(out.queue)) + 1 && exchange != nil
+//@ ensures[C05] err == nil && old(len(out.seqSem)) == 1 && old(qat(out.seqSem, 0).submitN) < old(qat(out.seqSem, 0).acceptN) ==> forall(k, wire_len(k) == old(wire_len(k))) && qat(out.seqSem, 0).submitN == old(qat(out.seqSem, 0).submitN)
+//@ ensures[C14,C17] err != nil && old(len(out.seqSem)) == 1 && !closed(out.seqSem) ==> qat(out.seqSem, 0) == old(qat(out.seqSem, 0))
